@@ -44,6 +44,35 @@ def parse_version_and_revision(version_string):
     return version, revision
 
 
+def get_hash_key(version_string):
+    """
+    Return a hashable key for a valid ``version_string`` such that two versions
+    that compare equal with vercmp() have the same key.
+
+    For example::
+    >>> get_hash_key("1.0") == get_hash_key("1.00")
+    True
+    >>> get_hash_key("1.2b_p-r0") == get_hash_key("1.2b_p0")
+    True
+    >>> get_hash_key("1.10") == get_hash_key("1.1")
+    False
+    """
+    version, revision = parse_version_and_revision(version_string)
+    dotted, *suffixes = version.split("_")
+    letter = ""
+    if dotted[-1:].isalpha():
+        letter = dotted[-1]
+        dotted = dotted[:-1]
+    # a component with a leading zero is compared without its trailing zeros
+    components = tuple(c.rstrip("0") if c.startswith("0") else c for c in dotted.split("."))
+    suffixes = tuple(
+        (match.group(1), int("0" + match.group(2)))
+        for match in map(suffix_regexp.match, suffixes)
+        if match
+    )
+    return components, letter, suffixes, revision
+
+
 def vercmp(ver1, ver2):
     """
     Compare two versions ``ver1`` and ``ver2`` and return 0, 1, or -1 according
